@@ -47,7 +47,9 @@ EmptyStart == {[name |-> "empty", lines |-> <<>>]}
 Start == [Fresh EXCEPT !.trace = TraceFlag, !.warn = WarnFlag]
 
 Row(c, r) == [start |-> start, path |-> Append(hist, c), trace |-> TraceFlag, warn |-> WarnFlag,
-              pred |-> [res |-> r.res, out |-> r.out, snap |-> SnapOf(r.I)]]
+              pred |-> [res |-> r.res, out |-> r.out, snap |-> SnapOf(r.I),
+                        caret |-> IF r.res.ok \/ c.k \notin {"submit", "continue"} \/ (c.k = "continue" /\ ~r.res.hl) THEN [ok |-> FALSE, lines |-> <<>>]
+                                  ELSE CaretLines(r.I, r.res, c.text)]]
 
 Host(c) ==
     /\ used + Cost(c) <= MaxCost
